@@ -81,7 +81,8 @@ fn documents() -> Vec<Doc> {
     let n = order.len();
     // per import: `;` or not  (2^n); separators: newline / space / blank line; comment placement
     for semis in 0..(1u32 << n) {
-      for sep in ["\n", " ", "\n\n"] {
+      // (CRLF line ends, and a lone carriage return: white space that does not end the line)
+      for sep in ["\n", " ", "\n\n", "\r\n", "\r"] {
         for comment in ["none", "line-before", "block-before", "line-between", "block-after", "line-after"] {
           if n == 0 && !(comment == "none" || comment == "line-before" || comment == "block-before") {
             continue;
@@ -91,6 +92,9 @@ fn documents() -> Vec<Doc> {
           }
           if sep == " " && comment.starts_with("line") && comment != "line-before" {
             continue; // a line comment would swallow the next import on the same line
+          }
+          if sep == "\r" && comment.starts_with("line") {
+            continue; // a lone carriage return does not end a line comment either
           }
           for lead in ["", "\n\n"] {
             for (bname, body) in &bodies {
